@@ -6,6 +6,7 @@
 #include <sstream>
 #include <cstring>
 #include <functional>
+#include <cmath>
 template <int N> using E = Opm::DenseAd::Evaluation<double, N>;
 template <int N> static E<N> load(const Replay& r, const std::string& p) {
     E<N> x;
@@ -56,6 +57,44 @@ template <int N> static int run(const Replay& r)
         E<N> x = load<N>(r, "x0"); const E<N> x0 = x;
         if (r.is("alias/mul")) { x *= x; return check(x, x0.value() * x0.value(), [&](int i) { return 2 * x0.value() * x0.derivative(i - 1); }); }
         E<N> y = load<N>(r, "y0"); y /= y; return check(y, 1.0, [&](int) { return 0.0; });
+    }
+    // math functions of Math.hpp: "m_<fn>/", "m_<fn>_EE/", "m_<fn>_Ec/", "m_<fn>_cE/": the operands come from the counterexample
+    // (or defaults); value and derivative are compared with the chain rule over a central difference of the std function
+    {
+        const auto p0 = r.obligation.find("m_");
+        if (p0 != std::string::npos) {
+            std::string fn = r.obligation.substr(p0 + 2, r.obligation.find('/', p0) - p0 - 2), shape = "E";
+            for (const char* sh : {"_EE", "_Ec", "_cE"}) if (fn.size() > 3 && fn.compare(fn.size() - 3, 3, sh) == 0) { shape = sh + 1; fn.resize(fn.size() - 3); }
+            auto ld = [&](const char* a, const char* b, double dv) { E<N> e = load<N>(r, r.has(std::string(a) + ".data_.a[0l]") || r.has(std::string(a) + ".data_.a[0]") ? a : b);
+                                                                   if (!r.has(std::string(a) + ".data_.a[0l]") && !r.has(std::string(a) + ".data_.a[0]") && !r.has(std::string(b) + ".data_.a[0l]") && !r.has(std::string(b) + ".data_.a[0]")) e.setValue(dv);
+                                                                   return e; };
+            const E<N> X = ld("verif_in_x", "x", 0.6), Y = ld("verif_in_y", "y", 1.7);
+            const double cx = r.num("x", 0.6), cy = r.num("y", 1.7);
+            using F2 = std::function<double(double, double)>;
+            F2 f; E<N> got;
+            const double xv = shape == "cE" ? cx : X.value(), yv = shape == "Ec" ? cy : Y.value();
+            if (fn == "atan2") { f = [](double a, double b) { return std::atan2(a, b); }; got = shape == "EE" ? Opm::atan2(X, Y) : Opm::atan2(X, cy); }
+            else if (fn == "pow") { f = [](double a, double b) { return std::pow(a, b); }; got = shape == "EE" ? Opm::pow(X, Y) : shape == "Ec" ? Opm::pow(X, cy) : Opm::pow(cx, Y); }
+            else if (fn == "max") { f = [](double a, double b) { return std::max(a, b); }; got = shape == "EE" ? Opm::max(X, Y) : shape == "Ec" ? Opm::max(X, cy) : Opm::max(cx, Y); }
+            else if (fn == "min") { f = [](double a, double b) { return std::min(a, b); }; got = shape == "EE" ? Opm::min(X, Y) : shape == "Ec" ? Opm::min(X, cy) : Opm::min(cx, Y); }
+            else {
+                std::function<double(double)> g;
+                if (fn == "sqrt") { g = [](double a) { return std::sqrt(a); }; got = Opm::sqrt(X); } else if (fn == "exp") { g = [](double a) { return std::exp(a); }; got = Opm::exp(X); }
+                else if (fn == "log") { g = [](double a) { return std::log(a); }; got = Opm::log(X); } else if (fn == "log10") { g = [](double a) { return std::log10(a); }; got = Opm::log10(X); }
+                else if (fn == "sin") { g = [](double a) { return std::sin(a); }; got = Opm::sin(X); } else if (fn == "cos") { g = [](double a) { return std::cos(a); }; got = Opm::cos(X); }
+                else if (fn == "tan") { g = [](double a) { return std::tan(a); }; got = Opm::tan(X); } else if (fn == "atan") { g = [](double a) { return std::atan(a); }; got = Opm::atan(X); }
+                else if (fn == "abs") { g = [](double a) { return std::fabs(a); }; got = Opm::abs(X); }
+                else { std::cerr << "no native replay for the math function " << fn << "\n"; return 3; }
+                f = [g](double a, double) { return g(a); }; shape = "E";
+            }
+            const double h = 1e-6;
+            const double fx = (f(xv + h, yv) - f(xv - h, yv)) / (2 * h), fy = (f(xv, yv + h) - f(xv, yv - h)) / (2 * h);
+            auto d = [&](int i) { return (shape == "cE" ? 0.0 : fx * X.derivative(i - 1)) + ((shape == "EE" || shape == "cE") ? fy * Y.derivative(i - 1) : 0.0); };
+            if (slot <= 0) { w << fn << " value " << got.value() << ", std: " << f(xv, yv); return r.verdict(Replay::close(got.value(), f(xv, yv)), w.str()); }
+            w << fn << "(" << (shape == "cE" ? "scalar" : "Evaluation") << ", " << (shape == "Ec" ? "scalar" : shape == "E" ? "-" : "Evaluation") << ") at x = " << xv << ", y = " << yv << ", N=" << N << " derivative slot " << slot << ": "
+              << got.derivative(slot - 1) << ", chain rule over the std function: " << d(slot);
+            return r.verdict(std::fabs(got.derivative(slot - 1) - d(slot)) <= 1e-5 * std::max(1.0, std::fabs(d(slot))), w.str());
+        }
     }
     std::cerr << "no native replay for this obligation\n";
     return 3;
